@@ -293,6 +293,11 @@ func flatKeys(fs []shape.Field, prefix string, out map[string]int) {
 			continue
 		case "leaf":
 			out[prefix+strings.ToLower(f.Name)]++
+			if f.Type == "any" || f.Type == "Stringer" {
+				// its default may devirtualise it into a struct: the members
+				// flatten under the field's name
+				embedKeys(reflect.TypeOf(IfaceImpl{}), prefix+strings.ToLower(f.Name), out)
+			}
 		case "struct", "pstruct":
 			flatKeys(f.Fields, prefix+strings.ToLower(f.Name), out)
 		case "embed", "pembed":
